@@ -181,6 +181,10 @@ def check_tree(ctx, case, nt, clause, track=None):
             if e['kind'] == 'other' and e['cell'].get('kind') in ('lyrics', 'dynamics', 'harmony', 'fingering', 'otherText', 'fieldComment') \
                     and n.token.encoding != e['cell']['text']:
                 ctx.fail({'text': case.text, 'clause': clause + ': literal text', 'stage': s}, 'cell text is not taken literally', impl=n.token.encoding, expected=e['cell']['text'])
+            if e['kind'] == 'global' and n.token.encoding != e['cell']['text'].strip():
+                # a global comment / reference record is one cell: its text is the line (outer blanks aside), whatever its key and spelling
+                ctx.fail({'text': case.text, 'clause': clause + ': literal text of a global comment', 'stage': s}, 'the text of a global comment is not taken literally',
+                         impl=n.token.encoding, expected=e['cell']['text'].strip())
 
 
 def explore(ctx, depth):
@@ -216,6 +220,7 @@ def explore(ctx, depth):
     ctx.count('join_patterns', len(jcases))
     # (b) generated documents
     cases = docrun.make_cases(ctx, 40 if depth == 'quick' else 400)
+    cases += docrun.make_cases(ctx, 10 if depth == 'quick' else 100, unknown=True, max_measures=3)
     mresp = docrun.model_exports(ctx, cases, [[] for _ in cases], tree=True)
     tracks = ctx.driver.ask([{'op': 'doc.track', 'text': c.text} for c in cases])
     for case, mr, tr in zip(cases, mresp, tracks):
